@@ -2,7 +2,27 @@
 # Regenerates /verif/MANIFEST.json from harness/checks.json (the single registry of checks).
 import json
 V='/verif'
+import re,glob
 specs=json.load(open(V+'/harness/checks.json'))
+# the exact bound parameters, read from the harness sources: one machine-made bounds line per property,
+# refreshed on every run, authoritative where a number in the prose lines has drifted
+params={}
+for f in sorted(glob.glob(V+'/harness/url/*.go')+glob.glob(V+'/harness/canonicalizer/*.go')):
+    for name,q,t in re.findall(r'vnd\.Param\("([A-Za-z0-9.]+)", (\d+), (\d+)\)', open(f).read()):
+        params[name]=(q,t)
+MARK='bound parameters as read from the harness sources (name=quick/thorough; authoritative where a number above differs): '
+for pid,sp in specs.items():
+    if 'bounds' not in sp: continue
+    sp['bounds']=[b for b in sp['bounds'] if not b.startswith(MARK)]
+    own=[n for n in sorted(params) if n.startswith(pid+'.')]
+    # harnesses borrowed from other properties
+    for h in sp.get('harnesses',[])+sp.get('thorough',[]):
+        m=re.search(r'Verif(C\d\d)',h)
+        if m and m.group(1)!=pid:
+            own+=[n for n in sorted(params) if n.startswith(m.group(1)+'.') and n not in own]
+    if own:
+        sp['bounds'].append(MARK+', '.join('%s=%s/%s'%(n,params[n][0],params[n][1]) for n in own))
+json.dump(specs,open(V+'/harness/checks.json','w'),indent=1,ensure_ascii=False)
 props=[json.loads(l) for l in open(V+'/properties.jsonl')]
 na_reason={
  'C20':"not applicable to this technique: the quantifier is over input length and the observable is allocation/time growth at kilobyte sizes; bounded symbolic execution unrolls loops with the input and does not model the allocator (DESIGN.md §7)",
